@@ -44,7 +44,9 @@ var Complete func(w []byte) []byte
 var SuffixMenu = []string{".5", ".5e1", "e1", "E+1", "e-0", "5", "00", "-", "+1", "null", "true", "false", "0", "-1", "1.5e1", `"x"`, "[]", "{}", " null", "\tnull ", "nullx", "ull", "rue", ",null", ":null", "]", "}", "null]", "null}", `"x":null}`}
 
 // NonJSONSpaces are white space in Unicode / Go's unicode.IsSpace / other parsers, not in JSON.
-var NonJSONSpaces = []string{"\v", "\f", "\x85", "\xa0", "\x00", "\xc2\x85", "\xc2\xa0", "\xe1\x9a\x80", "\xe2\x80\x83", "\xe2\x80\xa8", "\xe2\x80\xa9", "\xe3\x80\x80", "\xef\xbb\xbf", "\x1c", "\x1f"}
+var NonJSONSpaces = []string{"\v", "\f", "\x85", "\xa0", "\x00", "\xc2\x85", "\xc2\xa0", "\xe1\x9a\x80", "\xe2\x80\x83", "\xe2\x80\xa8", "\xe2\x80\xa9", "\xe3\x80\x80", "\xef\xbb\xbf", "\x1c", "\x1f",
+	// code points whose low byte is a JSON white space byte (a scanner that classifies runes by their low byte)
+	"\u0109", "\u010a", "\u010d", "\u0120", "\u2009", "\u200a", "\u200d", "\u2020", "\u3009", "\u300a", "\u3020", "\U0001f609", "\U0001f620"}
 
 // classReps has one representative byte per byte class.
 var classReps = func() []byte {
